@@ -47,6 +47,9 @@ def run(chk: Check, ctx: Any) -> None:
     )
     chk.rule("C16-R1", "grammar: skip channel, keyword-before-identifier order, alternative spellings present, generated tables in sync")
     chk.rule("C16-R2", "token positions flow only into source-map calls and error messages; no getText() of composite contexts in compiler code")
+    chk.rule("C16-R4", "re-spellings of a base program (whitespace, CRLF, comments incl. one still open at end of file, @/§, for_actor(X), trailing commas, integer bases, "
+                       "leading zeros of decimals, quote styles, import quote style) compile - whole compiler interpreted on the grammar's parse tree - to identical ops, "
+                       "routine table and position marks")
     chk.rule("C16-R3", "spelling tables agree (routine targets, label keys); delimiters removed by slicing, not by strip(set); integers via int(text, 0)")
 
     g = ctx.grammar_exps
@@ -241,3 +244,123 @@ def run(chk: Check, ctx: Any) -> None:
             if isinstance(c, ast.Call) and dotted(c.func) == "exps_int" and c.args and "INTEGER" in norm(c.args[0]):
                 n_int += 1
     chk.floor("C16-R3", "INTEGER tokens converted through exps_int", n_int, 10)
+    respelling_rule(chk, ctx, "C16-R4")
+
+
+
+# --------------------------------------------------------------------------- R4: re-spellings compile identically (whole compiler interpreted)
+
+BASE = """def 0 {
+    @start;
+    foo(16, -16, 0, 255, 1.5, -7.5, -0.5, 0.25, 'abc', 'it\\'s', 'say "hi"', "x");
+    bar(1, 2, Position<'mark', 10, 20.5>);
+    if ($V == 3) { jump @start; }
+    switch ($S) { case 1: a(); break; default: b(); }
+    baz<actor 7>({english='one', german="zwei"});
+    $A = 8;
+    end;
+}
+def 1 for actor 5 { c(); }
+def 2 for object OBJ_X { d(); }
+def 3 for performer 2 { e(); }
+"""
+
+RESPELLINGS: list[tuple[str, list[tuple[str, str]]]] = [
+    ("label-definition-sign", [("@start;", "§start;")]),
+    ("routine-header-style", [("for actor 5", "for_actor(5)"), ("for object OBJ_X", "for_object(OBJ_X)"), ("for performer 2", "for_performer(2)")]),
+    ("trailing-commas", [('"x");', '"x",);'), ("20.5>);", "20.5>,);"), ('german="zwei"}', 'german="zwei",}')]),
+    ("integer-bases-hex", [("foo(16, -16, 0, 255,", "foo(0x10, -0x10, 0x0, 0xFF,"), ("$A = 8;", "$A = 0x8;"), ("case 1:", "case 0x1:"), ("$V == 3", "$V == 0x3")]),
+    ("integer-bases-bin-oct", [("foo(16, -16, 0, 255,", "foo(0b10000, -0b10000, 0b0, 0o377,"), ("$A = 8;", "$A = 0o10;"), ("actor 7", "actor 0b111")]),
+    ("integer-zeros", [("foo(16, -16, 0, 255,", "foo(16, -16, 000, 255,")]),
+    ("decimal-leading-zeros", [("1.5, -7.5, -0.5, 0.25", "001.5, -07.5, -00.5, 00.25"), ("20.5>", "020.5>")]),
+    ("decimal-leading-zeros-2", [("1.5, -7.5, -0.5, 0.25", "01.5, -007.5, -000.5, 0.25")]),
+    ("quote-style", [("'abc'", '"abc"'), ("'it\\'s'", '"it\'s"'), ("'say \"hi\"'", '"say \\"hi\\""'), ('"x"', "'x'"), ("'mark'", '"mark"'), ("'one'", '"one"'), ('"zwei"', "'zwei'")]),
+    ("multi-line-quote-style", [("'abc'", "'''abc'''"), ('"x"', '"""x"""')]),
+]
+
+
+def _comments_variant(text: str) -> str:
+    out = "/* leading block\n   comment */\n// line comment\n" + text
+    out = out.replace("{\n", "{ // after brace\n").replace(";\n", "; /* c */\n").replace("(16,", "( /* in args */ 16,").replace("== 3", "== /**/ 3")
+    return out + "// trailing line comment without newline"
+
+
+def respelling_rule(chk: Check, ctx: Any, rule: str) -> None:
+    from ..engine.absint import AObj, PyExc, Unsupported
+    from ..engine.sta import SpecError, WholeCompiler, TreeCompiler
+    repo = ctx.repo
+    g = ctx.grammar_exps
+    wc = WholeCompiler(repo, ctx.fold, g)
+    pr = TreeCompiler(repo, ctx.fold, {}).param_repr
+    anchor = repo.func("explorerscript.ssb_converting.ssb_compiler:ExplorerScriptSsbCompiler.compile")
+
+    def summary(text: str) -> Any:
+        res = wc.compile(text, "$PERF")
+        ops = [[(op.attrs["op_code"].attrs["name"], [pr(p) for p in op.attrs["params"]]) for op in r] for r in res["routine_ops"]]
+        infos = [(i.attrs["type"].name, i.attrs["linked_to"], i.attrs["linked_to_name"]) if isinstance(i, AObj) else None for i in res["routine_infos"]]
+        smb = res["visitor"].attrs["source_map_builder"]
+        marks = [(m.attrs.get("name"), m.attrs.get("x_offset"), m.attrs.get("y_offset"), m.attrs.get("x_relative"), m.attrs.get("y_relative"))
+                 for m in smb.attrs.get("_pos_marks", []) if isinstance(m, AObj)]
+        return {"ops": ops, "routines": infos, "coroutines": [n for n in res["named_coroutines"] if isinstance(n, str)], "marks": marks}
+
+    try:
+        ref = summary(BASE)
+    except (PyExc, Unsupported, SpecError) as e:
+        chk.unknown(rule, "respelling:base", anchor, f"the base program is not evaluated: {e}")
+        return
+    variants: list[tuple[str, str]] = []
+    for name, subs in RESPELLINGS:
+        t = BASE
+        ok = True
+        for a, b in subs:
+            if a not in t:
+                ok = False
+            t = t.replace(a, b, 1)
+        variants.append((name, t if ok else ""))
+    variants.append(("whitespace-one-line", " ".join(ln.strip() for ln in BASE.split("\n"))))
+    variants.append(("whitespace-wide", BASE.replace("(", "(   ").replace(")", "\t )").replace("\n", "\n\n\t ")))
+    variants.append(("whitespace-crlf", BASE.replace("\n", "\r\n")))
+    variants.append(("whitespace-tight", BASE.replace(", ", ",").replace(" == ", "==").replace(" = ", "=").replace(") {", "){")))
+    variants.append(("comments", _comments_variant(BASE)))
+    variants.append(("comment-open-at-end-of-file", BASE + "/* a block comment that is still open at the end of the file"))
+    variants.append(("comment-stars", BASE.replace("end;", "end; /** doc * with * stars **/ /***/")))
+    n = 0
+    for name, text in variants:
+        key = f"respelling:{name}"
+        if not text:
+            chk.unknown(rule, key, anchor, "the re-spelling table no longer applies to the base program")
+            continue
+        n += 1
+        try:
+            got = summary(text)
+        except SpecError as e:
+            chk.violation(rule, key, anchor, f"the re-spelled program is rejected by the grammar although only its spelling changed: {e}")
+            continue
+        except PyExc as e:
+            chk.violation(rule, key, anchor, f"the re-spelled program fails to compile ({e.cls_name}: {e.msg}) although only its spelling changed")
+            continue
+        except (Unsupported, AnalysisError) as e:
+            chk.unknown(rule, key, anchor, f"abstract interpretation left the modelled subset: {e}")
+            continue
+        diffs = []
+        for k in ("ops", "routines", "coroutines", "marks"):
+            if got[k] != ref[k]:
+                if k == "ops":
+                    d = next(((a, b) for ra, rb in zip(ref[k], got[k]) for a, b in zip(ra, rb) if a != b), (None, None))
+                    diffs.append(f"ops differ: {d[0]} became {d[1]}")
+                else:
+                    diffs.append(f"{k} differ: {ref[k]} became {got[k]}")
+        chk.decide(rule, key, not diffs, anchor, f"re-spelling `{name}` changes the compiled program: " + "; ".join(diffs), "identical ops, routine table and position marks")
+    # import paths: quote style
+    iv = repo.cls("explorerscript.ssb_converting.compiler.compiler_visitor.import_visitor.ImportVisitor")
+    outs = []
+    for text in ('import "lib/a.exps";\nimport "b.exps";\ndef 0 { a(); }', "import 'lib/a.exps';\nimport 'b.exps';\ndef 0 { a(); }"):
+        try:
+            wc.I.steps = 0
+            outs.append(wc.I.visit_dispatch(wc.I.new(iv), wc.parse(text)))
+        except (PyExc, Unsupported, SpecError) as e:
+            outs.append(f"not evaluated: {e}")
+    n += 1
+    chk.decide(rule, "respelling:import-quote-style", (outs[0] == outs[1] == ["lib/a.exps", "b.exps"]) if all(isinstance(o, list) for o in outs) else None, iv.mod,
+               f"the imports of the double-quoted spelling are {outs[0]}, of the single-quoted spelling {outs[1]}", "import paths do not depend on the quote style")
+    chk.floor(rule, "re-spellings compiled abstractly", n, 18)
